@@ -691,3 +691,10 @@ def run(run):
     leadreject(run, fx)
     utf32range(run, fx)
     iterstep(run, fx)
+    from . import c12
+    from .util import OnlyRules
+    for f_ in (c12.nulstop, c12.textexec):      # gr_make_seg decodes with the same iterator: it consumes exactly the text in every encoding, whatever was decoded before (shared with C12)
+        try:
+            f_(OnlyRules(run, ['NULSTOP'], {'NULSTOP': 'ADVANCEBOUND'}), fx)
+        except AnalysisBroken as ex:
+            run.broken('ADVANCEBOUND', 'engine', str(ex))
